@@ -62,7 +62,7 @@ static int cmp_elem(const void * a, const void * b, void * p)
 {
     const int x = ((const struct elem *)a)->key, y = ((const struct elem *)b)->key;
     h_priv_check(p, 1);
-    return (x > y) - (x < y);
+    return h_cmp_result(x, y);
 }
 
 /* pool index + 1 of the element that contains bintree node bn; -1 = foreign */
